@@ -707,3 +707,10 @@ V('c18-reuse-foreign-destination', 'C18', 'C18.R2',
 # ---- C11: mutation of a borrowed repository object is a write ---------------
 V('c11-modify-borrowed', 'C11', 'C11.R1',
   ('pywbem_mock/_instancewriteprovider.py', "        original_instance = instance_store.get(modified_instance.path)\n", "        original_instance = instance_store.get(modified_instance.path,\n                                               copy=False)\n"), 'InstanceWriteProvider.ModifyInstance')
+
+# ---- C06.R9 (printer shape analysis) -----------------------------------------
+V('c06-dot-zero-appended', 'C06', 'C06.R9',
+  ('pywbem/_cim_types.py', "        s = f'{obj:.11G}'\n        if s == 'NAN':\n            s = 'NaN'\n        elif s in ('INF', '-INF'):\n            pass\n        elif '.' not in s:\n            parts = s.split('E')\n            parts[0] = parts[0] + '.0'\n            s = 'E'.join(parts)",
+   "        s = f'{obj:.11G}'\n        if s == 'NAN':\n            s = 'NaN'\n        elif s in ('INF', '-INF'):\n            pass\n        elif '.' not in s:\n            s = s + '.0'"), 'not-readable')
+V('c06-lowercase-g', 'C06', 'C06.R9',
+  ('pywbem/_cim_types.py', "        s = f'{obj:.17G}'", "        s = f'{obj:.17g}'"), 'not-readable')
